@@ -7,4 +7,5 @@ From GV Require Import Codec.Model Codec.Monitors.
 Extraction Language OCaml.
 (* Z.of_N is extracted only because ocaml/common/conv.ml mentions the type z *)
 Extraction "codec_model.ml" Z.of_N byte_of_N Byte.to_N crc32c marshal marshal_ok fields le32 decode_le32
-  frame C19_ok C19_fields_ok verify_frame C19_case_ok accept result_eqb bytes_eqb fields_digest field_num.
+  frame C19_ok C19_fields_ok verify_frame C19_case_ok accept result_eqb bytes_eqb fields_digest field_num
+  C19_call_ok C19_seq_ok accept_seq_values seq_stable model_seq.
